@@ -85,14 +85,8 @@ class _Eval(MiniEval):
 
 
 def _module_env(a, modname: str) -> dict:
-    mod = a.p.module(modname)
-    env: dict = {}
-    for name, val in mod.assigns.items():
-        try:
-            env[name] = const_eval(val)
-        except ValueError:
-            continue
-    return env
+    from ..minieval import module_constants
+    return dict(module_constants(a.p.module(modname)))
 
 
 def _add_module_functions(a, ev, modname: str, skip=()) -> None:
